@@ -62,11 +62,11 @@ func flattenGas(g map[string]map[string]uint64) map[string]uint64 {
 }
 
 type CallRecord struct {
-	Call    *Call
-	V       *Verdict
-	Res     *Result
-	Clauses []Clause
-	Lost    bool
+	Call              *Call
+	V                 *Verdict
+	Res               *Result
+	Clauses           []Clause
+	Lost              bool
 	PreFrozenOrPaused bool // some entry the call named was frozen / its token paused in the pre-state
 	NonPayableDest    bool
 	Consumed          uint64
@@ -81,9 +81,9 @@ type Engine struct {
 	NCalls int
 	OnCall func(*CallRecord)
 	// PreExec, when set, is called with the call about to be executed (used by the determinism check).
-	PreExec func(*Call) []Clause
+	PreExec  func(*Call) []Clause
 	PostExec func(*Call, *Result) []Clause
-	parser vmcommon.ESDTTransferParser
+	parser   vmcommon.ESDTTransferParser
 }
 
 func NewEngine(spec WorldSpec) *Engine {
